@@ -7,11 +7,12 @@
 #ifndef VF_STDIO_CONTRACTS_H
 #define VF_STDIO_CONTRACTS_H
 
+#define VF_SEEK_TARGET ((whence == SEEK_SET ? 0L : whence == SEEK_CUR ? (long)__CPROVER_old(G_pos) : (long)__CPROVER_old(G_len)) + off)
 #define VF_FREAD_TOTAL (size * count)
 #define VF_FREAD_GOT ((VF_FREAD_TOTAL) <= (__CPROVER_old(G_len) - __CPROVER_old(G_pos)) ? (VF_FREAD_TOTAL) : (__CPROVER_old(G_len) - __CPROVER_old(G_pos)))
 
 size_t fread(void *ptr, size_t size, size_t count, FILE *stream)
-__CPROVER_requires(stream == G_file && __CPROVER_r_ok(stream, 1))
+__CPROVER_requires(stream == G_file && __CPROVER_r_ok(stream, 1) && G_open == 1)
 __CPROVER_requires(size > 0 && size <= 65536 && count <= 65536)
 __CPROVER_requires(__CPROVER_w_ok(ptr, size * count))
 __CPROVER_requires(G_pos <= G_len && G_len <= VF_TAPE_MAX)
@@ -31,16 +32,17 @@ __CPROVER_ensures(G_eof == (__CPROVER_old(G_eof) || VF_FREAD_GOT < VF_FREAD_TOTA
 ;
 
 int fseek(FILE *stream, long off, int whence)
-__CPROVER_requires(stream == G_file && __CPROVER_r_ok(stream, 1))
-__CPROVER_requires(whence == SEEK_CUR && off == -1)
+__CPROVER_requires(stream == G_file && __CPROVER_r_ok(stream, 1) && G_open == 1)
+__CPROVER_requires(whence == SEEK_SET || whence == SEEK_CUR || whence == SEEK_END)
+__CPROVER_requires(off >= -0x100000 && off <= 0x100000)
 __CPROVER_assigns(G_pos, G_eof)
-__CPROVER_ensures(__CPROVER_old(G_pos) > 0 ==> (G_pos == __CPROVER_old(G_pos) - 1 && __CPROVER_return_value == 0))
-__CPROVER_ensures(__CPROVER_old(G_pos) == 0 ==> (G_pos == 0 && __CPROVER_return_value == -1))
-__CPROVER_ensures(G_eof == false)
+/* target = base + off; a negative target fails (-1) and leaves the position alone; seeking past the
+ * end of a read-only regular file is allowed by POSIX, but no gdstk caller does it */
+__CPROVER_ensures(VF_SEEK_TARGET >= 0 ==> (G_pos == (uint64_t)VF_SEEK_TARGET && __CPROVER_return_value == 0 && G_eof == false))
+__CPROVER_ensures(VF_SEEK_TARGET < 0 ==> (G_pos == __CPROVER_old(G_pos) && __CPROVER_return_value == -1))
 ;
 
 int fputs(const char *s, FILE *stream)
-__CPROVER_requires(stream != NULL)
 __CPROVER_assigns()
 ;
 
@@ -71,5 +73,39 @@ __CPROVER_requires(W_pos < VF_WTAPE_MAX)
 __CPROVER_assigns(W_pos, W_tape[W_pos])
 __CPROVER_ensures(W_pos == __CPROVER_old(W_pos) + 1 && W_tape[__CPROVER_old(W_pos)] == (c & 0xff))
 __CPROVER_ensures(__CPROVER_return_value == (c & 0xff))
+;
+
+/* ---- opening and closing: one input file; G_open counts open handles (0 or 1) ------------------ */
+FILE *fopen(const char *filename, const char *mode)
+__CPROVER_requires(G_open == 0)
+__CPROVER_assigns(G_open, G_pos, G_eof)
+__CPROVER_ensures(__CPROVER_return_value == NULL || (__CPROVER_return_value == G_file && G_open == 1 && G_pos == 0 && G_eof == false))
+__CPROVER_ensures(__CPROVER_return_value == NULL ==> G_open == 0)
+__CPROVER_ensures(IN_openfail == 0 ==> __CPROVER_return_value != NULL)
+;
+
+int fclose(FILE *stream)
+/* closing a handle that is not open (double close, close of garbage) violates this requires */
+__CPROVER_requires(stream == G_file && G_open == 1)
+__CPROVER_assigns(G_open)
+__CPROVER_ensures(G_open == 0 && __CPROVER_return_value == 0)
+;
+
+int feof(FILE *stream)
+__CPROVER_requires(stream == G_file && G_open == 1)
+__CPROVER_assigns()
+__CPROVER_ensures((__CPROVER_return_value != 0) == G_eof)
+;
+
+int ferror(FILE *stream)
+__CPROVER_requires(stream == G_file && G_open == 1)
+__CPROVER_assigns()
+__CPROVER_ensures(__CPROVER_return_value == 0)
+;
+
+long ftell(FILE *stream)
+__CPROVER_requires(stream == G_file && G_open == 1)
+__CPROVER_assigns()
+__CPROVER_ensures(__CPROVER_return_value == (long)G_pos)
 ;
 #endif
